@@ -15,7 +15,7 @@ EXTENDS FieldRules, Json
 CONSTANTS
   Sources,   \* subset of DocSources \cup MapSources \cup StrSources
   Wraps,     \* subset of {"flat","nested","pnested","slice","map"}
-  Kinds,     \* kinds of the subject field a
+  Kinds,     \* kinds of the subject field a (NumericKinds, "string", "bool", ListKinds)
   AOpts,     \* subset of {"none","plain","dep","notdep"}
   Defs,      \* subset of {"none","in","out"}      default inside / outside range+options
   Rngs,      \* subset of RangeIds
@@ -25,11 +25,14 @@ CONSTANTS
   BIds,      \* second field b: subset of {"nob","req","opt","defrng","mutual","notmutual"}
   XKs,       \* extra input key: subset of {"", "b", "zz"} ("" = none; "b" only without a field b)
   Rich,      \* BOOLEAN: add wrongly typed / overflowing input classes
+  Edges,     \* BOOLEAN: add the numbers around the ends of the kind's width (8/16-bit kinds)
+  KSps,      \* spellings of the document keys: subset of {"lower", "cap"} ("cap": conf sources only)
+  MKs,       \* first key of the map wrapper: subset of {"k", "a", "A", "b", "B", "m", "M"}
   Depth,     \* number of vectors per behaviour (1 for generation)
   Emit       \* BOOLEAN: print the vectors
 
 \* ------------------------------------------------------------------ field specs
-RangeIds == {"none", "cc", "oc", "co", "oo", "ge", "lt", "frac", "pt"}
+RangeIds == {"none", "cc", "oc", "co", "oo", "ge", "lt", "frac", "pt", "big"}
 R(lo, hi, li, ri, hlo, hhi) == [lo |-> lo, hi |-> hi, li |-> li, ri |-> ri, hlo |-> hlo, hhi |-> hhi]
 RangeRec(c) ==
   CASE c = "none" -> R(0, 0, FALSE, FALSE, FALSE, FALSE)
@@ -41,6 +44,7 @@ RangeRec(c) ==
     [] c = "lt"   -> R(0, 10, FALSE, FALSE, FALSE, TRUE)   \* (:5)
     [] c = "frac" -> R(3, 9, FALSE, TRUE, TRUE, TRUE)      \* (1.5:4.5]
     [] c = "pt"   -> R(6, 6, TRUE, TRUE, TRUE, TRUE)       \* [3:3]
+    [] c = "big"  -> R(0, 2000, TRUE, TRUE, TRUE, TRUE)    \* [0:1000]: wider than an 8-bit kind
 
 Fld(nm, k, ptr, opt, dep, defc, rngc, optc, fs) ==
   LET num == k \in NumericKinds
@@ -48,8 +52,11 @@ Fld(nm, k, ptr, opt, dep, defc, rngc, optc, fs) ==
   IN [nm |-> nm, k |-> k, ptr |-> ptr, opt |-> opt, dep |-> dep,
       hd |-> defc # "none",
       dn |-> IF defc = "none" THEN 0 ELSE IF k = "bool" THEN 1
+             ELSE IF k \in ListKinds THEN 2
              ELSE IF ~num THEN 0 ELSE IF defc = "in" THEN 6 ELSE 14,
-      ds |-> IF k = "string" /\ defc # "none" THEN (IF defc = "in" THEN "x" ELSE "w") ELSE "",
+      ds |-> IF defc = "none" THEN ""
+             ELSE IF k = "string" THEN (IF defc = "in" THEN "x" ELSE "w")
+             ELSE IF k = "strs" THEN "p,q" ELSE IF k = "ints" THEN "1,2" ELSE "",
       hr |-> rngc # "none", lo |-> rg.lo, hi |-> rg.hi, li |-> rg.li, ri |-> rg.ri,
       hlo |-> rg.hlo, hhi |-> rg.hhi,
       ho |-> optc # "none",
@@ -73,9 +80,21 @@ Nulls(src) == IF Nullable(src) THEN {VNull} ELSE {}
 
 NumProbe(k) == IF k \in FloatKinds THEN {0, 1, 2, 3, 6, 9, 10, 11, 12} ELSE {0, 2, 3, 6, 10, 12}
 
+\* the ends of the kind's width, one step outside them, and numbers further out that still
+\* fit 32 bits (one of them a multiple of the kind's modulus: it would wrap around to 0)
+EdgeProbe(k) ==
+  IF HasMax(k)
+  THEN {MinH(k) - 2, MinH(k), MaxH(k), MaxH(k) + 2, MaxH(k) + 90, 2 * MaxH(k) + 4, 4 * MaxH(k)}
+  ELSE IF HasMin(k) THEN {0 - 2, 0} ELSE {}
+
 InputsFor(f, src) ==
   LET str == src \in StrSources IN
-  CASE f.k \in NumericKinds ->
+  CASE f.k \in ListKinds ->
+         {VAbsent} \cup Nulls(src)
+         \cup (IF f.k = "strs" THEN {VList(2, "x,y"), VList(1, "x"), VList(0, "")}
+                               ELSE {VList(2, "3,4"), VList(1, "3"), VList(0, "")})
+         \cup (IF Rich THEN {VStr("x"), VNum(6)} ELSE {})
+    [] f.k \in NumericKinds ->
          {VAbsent} \cup Nulls(src)
          \cup (IF f.fs /\ ~str
                THEN {VNumStr(n) : n \in NumProbe(f.k)} \cup (IF Rich THEN {VNum(6), VNum(12)} ELSE {})
@@ -83,6 +102,8 @@ InputsFor(f, src) ==
                     \cup (IF Rich /\ ~str THEN {VNumStr(6), VNumStr(12)} ELSE {}))
          \cup (IF Rich THEN {VNum(600), VNum(0 - 2), VStr("x"), VBool(1)} ELSE {})
          \cup (IF Rich /\ str THEN {VStr("")} ELSE {})
+         \cup (IF Edges /\ f.k \in IntKinds
+               THEN {IF f.fs /\ ~str THEN VNumStr(n) ELSE VNum(n) : n \in EdgeProbe(f.k)} ELSE {})
     [] f.k = "string" ->
          {VAbsent} \cup Nulls(src) \cup {VStr("x"), VStr("z"), VStr("")}
          \cup (IF Rich /\ ~str THEN {VNum(6), VBool(1)} ELSE {})
@@ -97,15 +118,18 @@ BInputs(id, src) ==
 \* ------------------------------------------------------------------ the vectors
 WrapOK(src, w) == src \in StrSources => w = "flat"
 RngOK(k, r)    == k \notin NumericKinds => r = "none"
-OptOK(k, o)    == /\ k = "bool" => o = "none"
+OptOK(k, o)    == /\ k \in {"bool"} \cup ListKinds => o = "none"
                   /\ k = "string" => o \in {"none", "bar", "list"}
 FsOK(k, src, fs) == fs => (k \in NumericKinds /\ src \notin StrSources)
+ListOK(k, src, ptr, defc) == k \in ListKinds => (src \notin StrSources /\ ~ptr /\ defc # "out")
+KspOK(src, ksp) == ksp = "cap" => src \in ConfSources
+MkOK(w, mk)     == w # "map" => mk = "k"
 BOK(opt, bid, xk) ==
   /\ "b" \in SeqSet(xk) => bid = "nob"
   /\ "a" \notin SeqSet(xk)
 
-Vec(src, w, wabs, fs, in, xk) ==
-  [src |-> src, wrap |-> w, wabs |-> wabs, f |-> fs, in |-> in, xk |-> xk]
+Vec(src, w, wabs, fs, in, xk, ksp, mk) ==
+  [src |-> src, wrap |-> w, wabs |-> wabs, f |-> fs, in |-> in, xk |-> xk, ksp |-> ksp, mk |-> mk]
 
 AllAbsent(in) == \A i \in DOMAIN in : in[i] = VAbsent
 
@@ -114,17 +138,19 @@ Ideal(v) ==
   IF MustAccept(v)
   THEN [acc |-> TRUE, pan |-> FALSE,
         out |-> [i \in DOMAIN v.f |->
-                   IF DefAbsentV(v.in[i]) THEN DefaultOrZero(v.f[i]) ELSE Expected(v.f[i], v.in[i])]]
-  ELSE [acc |-> FALSE, pan |-> FALSE, out |-> <<>>]
+                   IF DefAbsentV(v.in[i]) THEN DefaultOrZero(v.f[i]) ELSE Expected(v.f[i], v.in[i])],
+        mk |-> IF v.wrap = "map" THEN <<v.mk, "k2">> ELSE <<>>]
+  ELSE NoRes
 
 \* Out(v): the outcome the unmarshaller under consideration produces for v
 GNextWith(Out(_)) ==
   /\ Cardinality(DOMAIN memo) < Depth
   /\ \E src \in Sources, w \in Wraps, k \in Kinds, ptr \in Ptrs :
      \E opt \in AOpts, defc \in Defs, rngc \in Rngs, optc \in Opts, fs \in FSs :
-     \E bid \in BIds, xkid \in XKs :
+     \E bid \in BIds, xkid \in XKs, ksp \in KSps, mk \in MKs :
        LET xk == IF xkid = "" THEN <<>> ELSE <<xkid>> IN
        /\ WrapOK(src, w) /\ RngOK(k, rngc) /\ OptOK(k, optc) /\ FsOK(k, src, fs) /\ BOK(opt, bid, xk)
+       /\ ListOK(k, src, ptr, defc) /\ KspOK(src, ksp) /\ MkOK(w, mk)
        /\ LET a  == Fld("a", k, ptr, opt, IF opt \in {"dep", "notdep"} THEN "b" ELSE "", defc, rngc, optc, fs)
               ty == IF bid = "nob" THEN <<a>> ELSE <<a, BField(bid)>>
           IN \E x \in InputsFor(a, src) :
@@ -132,7 +158,7 @@ GNextWith(Out(_)) ==
                LET in == IF bid = "nob" THEN <<x>> ELSE <<x, y>> IN
                \E wabs \in (IF w \in {"nested", "pnested"} /\ AllAbsent(in) /\ xk = <<>>
                             THEN BOOLEAN ELSE {FALSE}) :
-                 LET v == Vec(src, w, wabs, ty, in, xk) IN Record(v, v, Out(v))
+                 LET v == Vec(src, w, wabs, ty, in, xk, ksp, mk) IN Record(v, v, Out(v))
 
 GNext == GNextWith(Ideal)
 GSpec == FInit /\ [][GNext]_fvars
